@@ -18,6 +18,16 @@ PROP = "C09"
 ORDERS = ["ZYX", "ZXY", "YXZ", "YZX", "XYZ", "XZY", "ZYZ", "ZXZ", "YXY", "YZY", "XYX", "XZX"]
 ORDERS = ORDERS + [o + "Ex" for o in ORDERS]
 
+AUF = """
+pub mod {mod} {{
+    use glam::*; use crate::mk::*;
+    static mut T: MemoV<{Q}> = MemoV::new(<{Q}>::IDENTITY);
+    pub fn from_axis_angle(axis: {V}, angle: {t}) -> {Q} {{ unsafe {{ T.get(key2(axis.words(), angle.words()), mk()) }} }}
+    static mut TL: MemoV<{t}> = MemoV::new(0.0);
+    pub fn length(v: {V}) -> {t} {{ unsafe {{ TL.get(key2(v.words(), [0; 4]), crate::vk::any()) }} }}
+}}
+"""
+
 ROT = {  # axis -> column-major 3x3 in terms of s, c (right-hand rule, counter-clockwise)
     "x": ["1", "0", "0", "0", "c", "s", "0", "-s", "c"],
     "y": ["c", "0", "-s", "0", "1", "0", "s", "0", "c"],
@@ -43,6 +53,7 @@ def lit(e, t):
 
 def build(config, tier):
     obs = []
+    extra = []
     if config != "sse2":
         types_m3 = [x for x in M3 if x[0] == "Mat3A"]
         types_m4 = [x for x in M4 if x[0] == "Mat4"]
@@ -89,12 +100,16 @@ def build(config, tier):
                           desc="%s::from_rotation_%s(a) == (sin(a/2) on %s, cos(a/2)) with the half angle computed as a * 0.5" % (Q, ax, ax)))
         body = "let a: %s = vk::any(); let ax = mk::<%s>(); let (s, c) = crate::uf::sin_cos_f%d(a * 0.5); let q = <%s>::from_axis_angle(ax, a).to_array(); let v = ax.to_array();\n    check!(__verif::leq%d(q[0], v[0] * s) && __verif::leq%d(q[1], v[1] * s) && __verif::leq%d(q[2], v[2] * s) && __verif::leq%d(q[3], c), \"(axis * sin(a/2), cos(a/2))\");" % (
             t, V3, w, Q, w, w, w, w)
-        obs.append(Ob("%s_%s_axis_angle" % (pre0, Q.lower()), PROP, body, fn="%s::from_axis_angle" % Q, kind="lemma", solver="cvc5", stubs=["sse", "uf_sin_cos%d" % w], cls="structure",
+        obs.append(Ob("%s_%s_axis_angle" % (pre0, Q.lower()), PROP, body, fn="%s::from_axis_angle" % Q, kind="lemma", solver="cadical", stubs=["sse", "uf_sin_cos%d" % w], cls="structure",
                       desc="%s::from_axis_angle(axis, a) == (axis * sin(a/2), cos(a/2)), full domain" % Q))
+        # from_scaled_axis: forwarding lemma (plain crate): from_axis_angle, sqrt and the primitive arithmetic uninterpreted
+        mod = "auf_%s_%s" % (config, Q.lower())
+        extra.append(AUF.format(mod=mod, Q=Q, V=V3, t=t))
         body = ("let v = mk::<%s>(); let l = v.length(); let q = <%s>::from_scaled_axis(v); let e = if l == 0.0 { <%s>::IDENTITY } else { <%s>::from_axis_angle(v / l, l) };\n"
-                "    check!(__verif::leq%dx4(q.to_array(), e.to_array()), \"from_scaled_axis == from_axis_angle(v/|v|, |v|) or identity\");") % (V3, Q, Q, Q, w)
-        obs.append(Ob("%s_%s_scaled_axis" % (pre0, Q.lower()), PROP, body, fn="%s::from_scaled_axis" % Q, kind="lemma", solver="cvc5", stubs=["sse", "uf_sin_cos%d" % w, "uf_sqrt%d" % w], cls="structure",
-                      desc="%s::from_scaled_axis(v): identity when |v| == 0, else from_axis_angle(v/|v|, |v|) (sqrt, sin_cos uninterpreted)" % Q))
+                "    check!(mk::same(q, e), \"from_scaled_axis == from_axis_angle(v/|v|, |v|) or identity\");") % (V3, Q, Q, Q)
+        obs.append(Ob("%s_%s_scaled_axis" % (pre0, Q.lower()), PROP, body, fn="%s::from_scaled_axis" % Q, kind="lemma", solver="cadical", plain=True,
+                      stubs=["sse_uf", "arith_uf%d" % w, ("glam::%s::from_axis_angle" % Q, "crate::%s::from_axis_angle" % mod), ("glam::%s::length" % V3, "crate::%s::length" % mod)], cls="forwarding",
+                      desc="%s::from_scaled_axis(v): identity when |v| == 0, else exactly from_axis_angle(v/|v|, |v|) - for any from_axis_angle, length and division in their place" % Q))
     # ---- Rodrigues on the lattice
     for (kind, types) in (("m3", types_m3), ("m4", types_m4), ("af", types_af)):
         for (T, t, w, q) in types:
@@ -150,12 +165,13 @@ def build(config, tier):
         obs.append(Ob("c09_sse2_canary_euler_xyz_reversed", PROP,
                       'unsafe { crate::uf::SINCOS32_MODE = crate::uf::LAT; crate::uf::SINCOS_PARITY = true; } let a: f32 = vk::any(); let b: f32 = vk::any(); let c: f32 = vk::any(); let l = Mat3::from_euler(EulerRot::XYZ, a, b, c).to_cols_array(); let r = (Mat3::from_rotation_z(c) * Mat3::from_rotation_y(b) * Mat3::from_rotation_x(a)).to_cols_array(); check!(l[0] == r[0] && l[1] == r[1] && l[2] == r[2] && l[3] == r[3] && l[5] == r[5] && l[6] == r[6], "XYZ as extrinsic");',
                       fn="Mat3::from_euler", kind="canary", expect="refute", stubs=["sse", "uf_sin_cos32"], desc="canary: intrinsic XYZ specified as the reversed product"))
-    return obs
+    return obs, "\n".join(extra)
 
 
 def run(s):
     for cfg in ("sse2", "scalar"):
-        s.run_config(cfg, [], build(cfg, s.tier))
+        obs, extra = build(cfg, s.tier)
+        s.run_config(cfg, [], obs, extra_rust=extra)
     s.assumptions += [
         "A5: sin_cos is a function of its argument bits (uninterpreted), odd/even in the sign of the argument where the Euler obligations need it; std_math::sin_cos forwards to f32::sin_cos (not proved)",
         "A4: 'same proper rotation (orthonormal, det +1, unit quaternion)' is a corollary of the identities plus sin^2+cos^2=1, not machine-checked; half-angle quaternion vs full-angle matrix agreement relies on the double-angle identities",
